@@ -20,7 +20,10 @@ class LoopSpec:
     """
 
     def __init__(self, invariant, heap='havoc', decreases=None, types=None, header=None, lemmas=None, body_check=None,
-                 keeps_owned=False):
+                 keeps_owned=False, mk_heap=None, case_facts=None, owned=None):
+        self.owned = owned             # owned(L) -> [(kind, ref, guard)] temporaries the invariant declares unescaped
+        self.case_facts = case_facts   # case_facts(L, label) -> (facts of this case, disjunction of all cases) | None
+        self.mk_heap = mk_heap         # mk_heap(ctx) -> the havocked heap at the loop head (default: a fresh heap)
         self.body_check = body_check   # body_check(L, events) -> obligations about the ghost events of one iteration
         self.keeps_owned = keeps_owned   # unescaped temporaries stay owned across iterations (checked per body)
         self.lemmas = lemmas      # lemmas(L) -> definitional instances of spec functions assumed at the loop head
@@ -122,7 +125,7 @@ def inductive_loop(ip, frame, st, spec, seq, tag=None):
     for name in sorted(names):
         frame.env[name] = _havoc_val(ip, name, env0.get(name), spec.types.get(name))
     if spec.heap != 'unchanged':
-        ctx.heap = ctx.fresh_heap('loop')
+        ctx.heap = spec.mk_heap(ctx) if spec.mk_heap is not None else ctx.fresh_heap('loop')
         ctx.assume(ctx.heap.alloc >= heap0.alloc)
         # containers allocated before the loop that the loop body may touch are described by the invariant;
         # ownership information does not survive the havoc
@@ -140,6 +143,10 @@ def inductive_loop(ip, frame, st, spec, seq, tag=None):
     if spec.lemmas is not None:
         for label, f in _labelled(spec.lemmas(view)):
             ctx.assume(f)
+    if spec.owned is not None:
+        for entry in spec.owned(view):
+            if not any(o[0] == entry[0] and o[1].eq(entry[1]) for o in ctx.owned):
+                ctx.owned.append(entry)
     heap_head = ctx.heap
     owned_head = list(ctx.owned)
     measure0 = spec.decreases(view) if spec.decreases is not None else None
@@ -154,8 +161,14 @@ def inductive_loop(ip, frame, st, spec, seq, tag=None):
         return
     if is_for:
         ip.assign(frame, st.target, seq[2](ctx.heap, k))
+    if spec.case_facts is not None:
+        cf = spec.case_facts(LoopView(ip, frame, frame.env, ctx.heap, env0, heap0, k), ctx.ghost.get('case_label'))
+        if cf is not None:
+            this, allc = cf
+            ctx.oblige(f'{tag}.case-split-exhaustive', allc, kind='case-split')
+            ctx.assume(this)
     ev0 = len(ctx.ghost.setdefault('events', []))
-    ctx.ghost['events'].append({'kind': 'loop-body-begin', 'loop': tag, 'k': k})
+    ctx.ghost['events'].append({'kind': 'loop-body-begin', 'loop': tag, 'k': k, 'heap': ctx.heap})
     try:
         ip.exec_block(frame, st.body)
     except _Break:
@@ -168,8 +181,9 @@ def inductive_loop(ip, frame, st, spec, seq, tag=None):
         for label, f in _labelled(spec.body_check(viewb, ctx.ghost['events'][ev0 + 1:])):
             ctx.oblige(f'{tag}.body.{label}', f if z3.is_expr(f) else z3.BoolVal(bool(f)), kind='loop-body')
     if spec.keeps_owned:
-        for kind, ref in owned_head:
-            if not any(kk == kind and rr.eq(ref) for kk, rr in ctx.owned):
+        for entry in owned_head:
+            kind, ref = entry[0], entry[1]
+            if not any(o[0] == kind and o[1].eq(ref) for o in ctx.owned):
                 raise OutOfReach(f'{tag}: a temporary assumed unescaped escapes in the loop body')
     view2 = LoopView(ip, frame, frame.env, ctx.heap, env0, heap0, (k + 1) if is_for else None)
     for label, f in _labelled(spec.invariant(view2)):
@@ -279,9 +293,9 @@ def _map_list(ip, frame, node):
     heap_before = ctx.heap
     nb = len(ctx.pc)
     ip.assign(sub, g.target, seq[2](ctx.heap, j))
-    pos_before = ctx.pos
+    pos_before = ctx.real_forks
     val = ip.eval(sub, node.elt)
-    if ctx.pos != pos_before or ctx.heap is not heap_before:
+    if ctx.real_forks != pos_before or ctx.heap is not heap_before:
         raise OutOfReach('comprehension element forks or has effects')
     vt = ctx.to_term(val)
     els = z3.Lambda([j], vt)
@@ -335,14 +349,17 @@ def first_match(ip, gen, default):
         """z3 Bool: the filter holds at index j (must be fork-free and effect-free)"""
         heap_before = ctx.heap
         nb = len(ctx.pc)
-        pos_before = ctx.pos
+        pos_before = ctx.real_forks
         fr = Frame(frame.module, frame.qual, {'__parent__': frame.env}, None)
+        hook_elem = ctx.cfg.hooks.get('first_match_elem')
+        if hook_elem is not None:
+            hook_elem(ip, gen, j)
         ip.assign(fr, g.target, seq[2](ctx.heap, j))
         conds = []
         for cond in g.ifs:
             t = ctx.truthy(ip.eval(fr, cond))
             conds.append(z3.BoolVal(t) if isinstance(t, bool) else t)
-        if ctx.pos != pos_before or ctx.heap is not heap_before:
+        if ctx.real_forks != pos_before or ctx.heap is not heap_before:
             raise OutOfReach('first-match filter forks or has effects')
         return z3.And(conds) if conds else z3.BoolVal(True), fr
 
